@@ -1679,6 +1679,8 @@ namespace ipr::impl {
 
       const ipr::Identifier& name_factory::get_identifier(const ipr::String& s)
       {
+         if (auto word = word_if_known(s.characters()))
+            return *word;
          return *ids.insert(s, id_compare());
       }
 
